@@ -349,6 +349,18 @@ func typeAssert(n *node, withResult, withOk bool) {
 		setStatus = n.anc.child[1].ident != "_" // do not assign status to "_"
 	}
 
+	// finish stores the status and, for a failed comma-ok assertion, the zero value of the result.
+	zeroResult := withResult && withOk && n.anc.child[0].ident != "_"
+	finish := func(f *frame, ok bool) {
+		if setStatus {
+			value1(f).SetBool(ok)
+		}
+		if !ok && zeroResult {
+			d := value0(f)
+			d.Set(reflect.Zero(d.Type()))
+		}
+	}
+
 	typ := c1.typ // type to assert or convert to
 	typID := typ.id()
 	rtype := typ.refType(nil) // type to assert
@@ -359,11 +371,7 @@ func typeAssert(n *node, withResult, withOk bool) {
 		n.exec = func(f *frame) bltn {
 			valf := value(f)
 			v, ok := valf.Interface().(valueInterface)
-			if setStatus {
-				defer func() {
-					value1(f).SetBool(ok)
-				}()
-			}
+			defer func() { finish(f, ok) }()
 			if !ok {
 				if !withOk {
 					panic(n.cfgErrorf("interface conversion: nil is not %v", typID))
@@ -398,11 +406,7 @@ func typeAssert(n *node, withResult, withOk bool) {
 			var leftType reflect.Type
 			v := value(f)
 			val, ok := v.Interface().(valueInterface)
-			if setStatus {
-				defer func() {
-					value1(f).SetBool(ok)
-				}()
-			}
+			defer func() { finish(f, ok) }()
 			if ok && val.node.typ.cat != valueT {
 				m0 := val.node.typ.methods()
 				m1 := typ.methods()
@@ -461,11 +465,7 @@ func typeAssert(n *node, withResult, withOk bool) {
 	case isEmptyInterface(n.child[0].typ):
 		n.exec = func(f *frame) bltn {
 			var ok bool
-			if setStatus {
-				defer func() {
-					value1(f).SetBool(ok)
-				}()
-			}
+			defer func() { finish(f, ok) }()
 			val := value(f)
 			concrete := val.Interface()
 			ctyp := reflect.TypeOf(concrete)
@@ -499,11 +499,7 @@ func typeAssert(n *node, withResult, withOk bool) {
 		n.exec = func(f *frame) bltn {
 			v := value(f).Elem()
 			ok := v.IsValid()
-			if setStatus {
-				defer func() {
-					value1(f).SetBool(ok)
-				}()
-			}
+			defer func() { finish(f, ok) }()
 			if !ok {
 				if !withOk {
 					panic(n.cfgErrorf("interface conversion: interface {} is nil, not %s", rtype.String()))
@@ -531,11 +527,7 @@ func typeAssert(n *node, withResult, withOk bool) {
 	default:
 		n.exec = func(f *frame) bltn {
 			v, ok := value(f).Interface().(valueInterface)
-			if setStatus {
-				defer func() {
-					value1(f).SetBool(ok)
-				}()
-			}
+			defer func() { finish(f, ok) }()
 			if !ok || !v.value.IsValid() {
 				ok = false
 				if !withOk {
